@@ -197,6 +197,19 @@ def value_for_site(rng, site):
     return gv.hostile_value(rng, 2)
 
 
+def schema_nesting(schema, level=0):
+    if level > 400:
+        return level
+    best = level
+    if isinstance(schema, dict):
+        for member in schema.values():
+            best = max(best, schema_nesting(member, level + 1))
+    elif isinstance(schema, list):
+        for member in schema:
+            best = max(best, schema_nesting(member, level))
+    return best
+
+
 def nesting_depth(value):
     depth = 0
     stack = [(value, 0)]
@@ -223,6 +236,21 @@ def observe_call(ctx, sut, element, schema, value, site):
     if outcome == "RecursionError" and depth > 60:
         ctx.count("out_of_domain.recursion_beyond_budget")
         return
+    if outcome == "RecursionError" and schema_nesting(schema) > 60:
+        # a shallow value against a schema nested far deeper: validation itself may need the depth (chains of
+        # `not` / `anyOf` recurse once per level whatever the value), which is outside the statement. What is
+        # inside it: the library had already decided to reject (a frame of its error constructors is on the
+        # stack) and then failed to raise that error.
+        tb, deciding = exc.__traceback__, False
+        while tb is not None:
+            if tb.tb_frame.f_code.co_filename.replace("\\", "/").endswith("statham/schema/exceptions.py"):
+                deciding = True
+                break
+            tb = tb.tb_next
+        if not deciding:
+            ctx.count("out_of_domain.recursion_in_validation_of_deep_schema")
+            return
+        ctx.count("deep_schema.rejection_decided_but_not_raised")
     try:
         key = canon([schema, value])[:300]
     except RecursionError:
@@ -339,7 +367,10 @@ def parser_and_calls(ctx, sut):
         schema = hostilify(rng, base) if isinstance(base, dict) else base
         if idx % 9 == 0 and isinstance(schema, dict):
             # deep (in-budget) schema nesting
-            for _ in range(rng.choice([5, 20, 40])):
+            levels = rng.choice([5, 20, 40, 120, 180, 240])
+            if levels > 100:
+                ctx.count("parse.deep_schema_beyond_100")
+            for _ in range(levels):
                 schema = rng.choice([
                     lambda s: {"items": s}, lambda s: {"properties": {"a": s}}, lambda s: {"not": s},
                     lambda s: {"anyOf": [s]}, lambda s: {"additionalProperties": s},
